@@ -231,16 +231,11 @@ theorem repeated_verify_same_verdict (P : Params) (S : Sem D V O) (l : Bool) (st
 
 /-! ## every early return is balanced, except the audited ones (tie T, tools/translate/retpaths.py) -/
 
-/-- audited unbalanced returns on the current tree (each is a genuine leak on a failure path; repairs proposed in
-    notes/patches/C19-fix-failure-path-finalize.diff for the first four functions; the heuristic / hd signers' `return 0` after a
+/-- audited unbalanced returns on the current tree (each is a genuine leak on a failure path; fixed_degree_isogeny, clapotis, norm_list_computation and is_good_norm were
+    repaired by 00b2604 and are gone from the list; the heuristic / hd signers' `return 0` after a
     failed sample_response ("TODO when it fails, we don't finalize all the ibz") is not small) -/
 def auditedUnbalancedReturns : List (String × String × Nat × String) := [
-  ("src/dim2id2iso/ref/dim2id2isox/dim2id2iso.c", "dim2id2iso_ideal_to_isogeny_clapotis", 0, "adjust_u,adjust_v,norm,quat_gcd_remove,quat_tmp,target,test1,test2,theta,tmp,two_pow"),
-  ("src/dim2id2iso/ref/dim2id2isox/dim2id2iso.c", "fixed_degree_isogeny", 0, "theta,tmp,two_pow"),
-  ("src/klpt/ref/klptx/tools.c", "norm_list_computation", 0, "elli,remainder,temp"),
-  ("src/sqisigndim2/ref/sqisigndim2x/sign.c", "is_good_norm", 1, "pow2"),
   ("src/sqisigndim2_heuristic/ref/sqisigndim2_heuristicx/sign.c", "protocols_sign", 0, "coeffs,degree_full_resp,degree_odd_resp,elem_tmp,lat_commit,lattice_content,lattice_hom_chall_to_com,lideal_aux,lideal_aux_com,lideal_chall_secret,lideal_chall_two,lideal_com_resp,lideal_commit,lideal_resp_two,lideal_tmp,mat,mat_Baux0_to_Baux_can,mat_Bchall_can_to_Bchall,pow_chall,remain,resp_quat,sig_mat_pk_can_to_B_pk,temp_norm,tmp,vec,vec_chall,vec_resp_two"),
-  ("src/sqisignhd/ref/sqisignhdx/sign.c", "is_good_norm", 1, "pow2"),
   ("src/sqisignhd/ref/sqisignhdx/sign.c", "protocols_sign", 0, "coeffs,degree_full_resp,degree_odd_resp,elem_tmp,lat_commit,lattice_content,lattice_hom_chall_to_com,lideal_chall_secret,lideal_chall_two,lideal_com_resp,lideal_commit,lideal_resp_two,lideal_tmp,mat,mat_Bchall_can_to_Bchall,mat_Bcom0_to_Bcom_can,pow_chall,remain,resp_quat,sig_mat_pk_can_to_B_pk,temp_norm,tmp,vec,vec_chall,vec_resp_two")
 ]
 
